@@ -363,13 +363,17 @@ def main():
     # MGRS: fixed corpus, UTM and UPS latitudes
     try:
         import mgrs  # noqa
-        for lo, la in fixed_pts + [(10.0, 86.0), (-120.0, -88.0), (6.0, 60.0), (9.0, 72.0), (33.0, 78.0)]:
-            c = Coordinate(lo, la)
+        zm_variants = [{}, {'z': 12.5}, {'m': 3}, {'z': 10.0, 'm': 2}, {'z': 10.0, 'm': 4.0}, {'z': 5, 'm': 7}]
+        mgrs_pts = fixed_pts + [(10.0, 86.0), (-120.0, -88.0), (6.0, 60.0), (9.0, 72.0), (33.0, 78.0)]
+        for pi_, (lo, la) in enumerate(mgrs_pts * 2):
+            # second pass: the same positions carrying Z / M values (which must not reach the grid conversion)
+            zm = {} if pi_ < len(mgrs_pts) else zm_variants[1 + pi_ % (len(zm_variants) - 1)]
+            c = Coordinate(lo, la, **zm)
             try:
                 s = c.to_mgrs()
                 b = Coordinate.from_mgrs(s)
             except Exception as ex:   # noqa  a reference the writer emits must be readable
-                m = {'k': 'mgrs', 'coord': [lo, la], 'raised': repr(ex)}
+                m = {'k': 'mgrs', 'coord': [lo, la], 'zm': zm, 'raised': repr(ex)}
                 flag(m, 'mgrs-roundtrip', f'to_mgrs/from_mgrs raised {ex!r}')
                 add('KRhu 0 0 0', m)
                 continue
@@ -377,7 +381,7 @@ def main():
                             min(abs(b.longitude - c.longitude), 360 - abs(b.longitude - c.longitude)) * 111320 * math.cos(math.radians(c.latitude)))
             ck.count('mgrs')
             if dm > 1.5:
-                m = {'k': 'mgrs', 'coord': [lo, la], 'mgrs': s, 'back': [b.longitude, b.latitude]}
+                m = {'k': 'mgrs', 'coord': [lo, la], 'zm': zm, 'mgrs': s, 'back': [b.longitude, b.latitude]}
                 flag(m, 'mgrs-roundtrip', f'{dm:.3f} m')
                 add('KRhu 0 0 0', m)
     except ImportError:
